@@ -117,7 +117,14 @@ def _consequence_of(monitor, w, kind):
 
 
 def p_sympy_number(monitor, w):
-    return monitor == "substituted-evaluates" and w.get("op") == "subs"\
+    """
+    A rotation whose phase became a symbol-free sympy number (after subs, or
+    after a partial lambdify in which the remaining symbol cancels) cannot be
+    evaluated: numpy.sin/cos/exp refuse sympy objects.
+    """
+    return (monitor == "substituted-evaluates" and w.get("op") == "subs"
+            or monitor == "lambdify-eval-model" and w.get("op") == "lambdify"
+            and w.get("failure") == "exception")\
         and w.get("exception") == "TypeError"\
         and bool(_NOCALL.search(w.get("message", "")))\
         and bool(w.get("sympy_number_rotations"))
@@ -745,7 +752,7 @@ def payload_vectors(old_payloads, new_payloads, envs):
     b = [x for p in new_payloads for x in sym.flat_leaves(p)]
     if len(a) != len(b):
         return None, "payload sizes {} vs {}".format(len(a), len(b))
-    return [(sym.numeric(a, env), sym.numeric(b, env)) for env in envs], None
+    return list(zip(sym.numeric_many(a, envs), sym.numeric_many(b, envs))), None
 
 
 def check_box_data(ctx, monitor, d, new, args_list, envs, base):
@@ -826,7 +833,7 @@ def locate_failing(d, call, outer):
                 raising_box_has_symbol=None)
 
 
-def tensor_subs_checks(ctx, value, args_list, model, envs, base):
+def tensor_subs_checks(ctx, value, args_list, model_vecs, envs, base):
     """
     eval(d).subs(s) by the library's own Tensor.subs against the sympy model:
     `tensor-subs-raw` on the evaluation as it is (a CQMap is also tried as
@@ -837,9 +844,9 @@ def tensor_subs_checks(ctx, value, args_list, model, envs, base):
     from discopy.tensor import Tensor
     is_cq = type(value).__name__ == "CQMap"
     if is_cq:
-        one_tensor_subs(ctx, "cqmap-subs-model", value, args_list, model, envs, base)
+        one_tensor_subs(ctx, "cqmap-subs-model", value, args_list, model_vecs, envs, base)
         value = value.utensor
-    one_tensor_subs(ctx, "tensor-subs-raw", value, args_list, model, envs, base)
+    one_tensor_subs(ctx, "tensor-subs-raw", value, args_list, model_vecs, envs, base)
     flat = [sympy.sympify(x) for x in
             numpy.asarray(value.array, dtype=object).flatten()]
     try:
@@ -847,10 +854,10 @@ def tensor_subs_checks(ctx, value, args_list, model, envs, base):
     except Exception:
         ctx.count("tensor-subs-model-could-not-build-input")
         return
-    one_tensor_subs(ctx, "tensor-subs-model", clean, args_list, model, envs, base)
+    one_tensor_subs(ctx, "tensor-subs-model", clean, args_list, model_vecs, envs, base)
 
 
-def one_tensor_subs(ctx, monitor, value, args_list, model, envs, base):
+def one_tensor_subs(ctx, monitor, value, args_list, model_vecs, envs, base):
     flat0 = list(numpy.asarray(value.array, dtype=object).flatten())
     plain = [i for i, x in enumerate(flat0) if not isinstance(x, sympy.Basic)]
     extra = dict(plain_entries=len(plain),
@@ -866,7 +873,7 @@ def one_tensor_subs(ctx, monitor, value, args_list, model, envs, base):
                message=str(err)[:300], **extra, **base)
         return
     try:
-        pairs = [(sym.numeric(got, env), sym.numeric(model, env)) for env in envs]
+        pairs = list(zip(sym.numeric_many(got, envs), model_vecs))
     except sym.Unresolved as err:
         report(ctx, monitor, failure="unresolved-symbols", reason=str(err),
                **extra, **base)
@@ -884,11 +891,10 @@ def one_tensor_subs(ctx, monitor, value, args_list, model, envs, base):
            **extra, **base)
 
 
-def compare_values(ctx, monitor, got_array, model_flat, envs, changes, **witness):
-    """ got (numbers or expressions) vs the model at each env. """
+def compare_values(ctx, monitor, got_array, model_vecs, envs, changes, **witness):
+    """ got (numbers or expressions) vs the model vectors at each env. """
     try:
-        pairs = [(sym.numeric(got_array, env), sym.numeric(model_flat, env))
-                 for env in envs]
+        pairs = list(zip(sym.numeric_many(got_array, envs), model_vecs))
     except sym.Unresolved as err:
         report(ctx, monitor, failure="unresolved-symbols", reason=str(err),
                  attr_changes=changes, **witness)
@@ -953,9 +959,12 @@ def run_case(rng, ctx):
 
     reached = 0
     subs_done = []
-    for style, args_list in make_substitutions(rng, syms, present):
-        if arm == "generic" and style == "pairs-chained":
-            pass
+    substitutions = make_substitutions(rng, syms, present)
+    if arm == "circuit-mixed":        # symbolic CQ evaluation is the expensive one
+        keep = [s for s in substitutions if s[0] in ("float", "pairs-total")]
+        rest = [s for s in substitutions if s[0] not in ("float", "pairs-total")]
+        substitutions = keep + rng.sample(rest, 2)
+    for style, args_list in substitutions:
         reached += one_substitution(
             ctx, rng, arm, d, drepr, classes, present, style, args_list,
             evaluable, mixed, original, original_tensor, info)
@@ -1016,8 +1025,14 @@ def one_substitution(ctx, rng, arm, d, drepr, classes, present, style,
     for args in args_list:
         model = sym.subs_array(model, args)
     # Tensor.subs / CQMap.subs against the same model
+    try:
+        model_vecs = sym.numeric_many(model, envs)
+    except sym.Unresolved:
+        ctx.count("model-unresolved")
+        return 0
     if original_tensor is not None:
-        tensor_subs_checks(ctx, original_tensor, args_list, model, envs, base)
+        tensor_subs_checks(ctx, original_tensor, args_list, model_vecs, envs,
+                           base)
     # evaluation of the substituted diagram
     got = None
     try:
@@ -1039,7 +1054,7 @@ def one_substitution(ctx, rng, arm, d, drepr, classes, present, style,
             ctx.count("eval-commutes-masked-by-eval-exception")
     if got is None:
         return 0
-    compare_values(ctx, "eval-commutes", got, model, envs, changes,
+    compare_values(ctx, "eval-commutes", got, model_vecs, envs, changes,
                    after=lambda: safe_repr(new, 400), **base)
     if total:
         expect(ctx, "total-evaluates-to-numbers", sym.all_numbers(got),
@@ -1124,11 +1139,17 @@ def one_lambdify(ctx, rng, arm, d, drepr, classes, present, evaluable, mixed,
         got = evaluate(arm, lam, mixed)
     except Exception as err:
         report(ctx, "lambdify-eval-model", failure="exception",
-                 exception=type(err).__name__, message=str(err)[:300],
-                 after=safe_repr(lam, 400), attr_changes=changes, **base)
+               exception=type(err).__name__, message=str(err)[:300],
+               sympy_number_rotations=sympy_number_rotations(lam)
+               if arm != "zx" else [],
+               after=safe_repr(lam, 400), attr_changes=changes, **base)
         return 0
-    model = sym.subs_array(original, (pairs,))
-    compare_values(ctx, "lambdify-eval-model", got, model, envs, changes,
+    try:
+        model_vecs = sym.numeric_many(sym.subs_array(original, (pairs,)), envs)
+    except sym.Unresolved:
+        ctx.count("model-unresolved")
+        return 0
+    compare_values(ctx, "lambdify-eval-model", got, model_vecs, envs, changes,
                    after=lambda: safe_repr(lam, 400), **base)
     if total:
         expect(ctx, "total-evaluates-to-numbers", sym.all_numbers(got),
@@ -1140,7 +1161,8 @@ def one_lambdify(ctx, rng, arm, d, drepr, classes, present, evaluable, mixed,
             ctx.count("lambdify-equals-subs-eval-masked-by-eval-exception")
             sub_value = None
         if sub_value is not None:
-            compare_values(ctx, "lambdify-equals-subs-eval", got, sub_value,
+            compare_values(ctx, "lambdify-equals-subs-eval", got,
+                           sym.numeric_many(sub_value, envs),
                            envs, structural_changes(sub, lam),
                            after=lambda: safe_repr(lam, 400), **base)
     return 1
